@@ -174,11 +174,30 @@ func runC07(r *simkit.Run) {
 	restartNode, restartAtBlk := -1, 0
 	if c.Chance(300, "restart-a-keyper") {
 		restartNode = c.Intn(len(honest), "restarted-keyper")
-		restartAtBlk = c.Range(1, int(3*L)+2, "restart-at-block")
+		// relative to the start of the key generation: inside dealing / accusing / apologizing
+		restartAtBlk = c.Range(0, int(3*L)+1, "restart-blocks-after-eon-start")
+	}
+	eonStartHeight := int64(0)
+	findEonStart := func() {
+		for _, b := range w.tmc.Blocks {
+			for _, d := range b.Deliver {
+				for _, raw := range d.Events {
+					if ev, err := shutterevents.MakeEvent(raw, b.Height); err == nil {
+						if e, ok := ev.(*shutterevents.EonStarted); ok && int64(e.Eon) == eon {
+							eonStartHeight = e.Height
+						}
+					}
+				}
+			}
+		}
 	}
 	for blk := 0; blk < int(8*L)+40 && !done; blk++ {
-		if restartNode >= 0 && blk == restartAtBlk && stallNode != restartNode {
+		if restartNode >= 0 && eonStartHeight == 0 {
+			findEonStart()
+		}
+		if restartNode >= 0 && eonStartHeight != 0 && w.tmc.Height == eonStartHeight+int64(restartAtBlk) && stallNode != restartNode {
 			nd := honest[restartNode]
+			restartNode = -1 // once
 			w.crash(nd)
 			for i := 0; i < 20 && nd.running; i++ {
 				w.settle(200 * time.Millisecond)
